@@ -101,6 +101,10 @@ func DomFrontier(g graph.BiGraph, root int, idom []int) [][]int {
 		}
 
 		for _, pred := range preds {
+			if pred != root && idom[pred] == -1 {
+				// pred is unreachable from root.
+				continue
+			}
 			runner := pred
 			for runner != bdom {
 				// Add b to runner's DF set.
